@@ -1,6 +1,5 @@
 // ---- output chains shared by both variants ----
-spec fn out_parent<V>(o: Output<V>) -> nat { match o.parent { None => 0, Some(p) => p@ as nat } }
-spec fn opt_n(o: Option<NonZeroU32>) -> nat { match o { None => 0, Some(p) => p@ as nat } }
+//@include ghost_outp.rs
 
 spec fn mk_match<V>(o: Output<V>, end: nat) -> Match<V> {
     Match { length: o.length as usize, end: end as usize, value: o.value }
